@@ -51,6 +51,18 @@ func init() {
 			Req: []string{"def($block, aes.NewCipher(conv(_, $key)), 0)", "ok(aes.NewCipher(conv(_, $key)))"}},
 		{ID: "E8.aes.encrypt.cfb", Fn: "crypto.EncryptBytesAES", P: []string{"plainText", "key"}, Kind: "call", Pat: "cipher.NewCFBEncrypter($block, $iv)", Max: 1,
 			Req: []string{"def($block, aes.NewCipher(conv(_, $key)), 0)", "ok(io.ReadFull(rand.Reader, $iv))", "def($iv, $ct[:aes.BlockSize])", "def($ct, make(_, aes.BlockSize + len($plainText)))"}},
+		{ID: "E8.aes.encrypt.stream-into-ciphertext", Fn: "crypto.EncryptBytesAES", P: []string{"plainText", "key"}, Kind: "call", Pat: "$stream.XORKeyStream($ct[aes.BlockSize:], $plainText)", Min: 1, Max: 1,
+			Why: "the key stream is applied to the plaintext and written behind the IV of the returned buffer",
+			Req: []string{"def($stream, cipher.NewCFBEncrypter(_, _))", "def($ct, make(_, aes.BlockSize + len($plainText)))"}},
+		{ID: "E8.aes.encrypt.returns-ciphertext", Fn: "crypto.EncryptBytesAES", P: []string{"plainText", "key"}, Kind: "ret ok", Pat: "ret($ct, nil)", Max: 1,
+			Req: []string{"def($ct, make(_, aes.BlockSize + len($plainText)))", "called(_.XORKeyStream($ct[aes.BlockSize:], $plainText))"}},
+		{ID: "E8.space-delimited.split-text", Fn: "oidc.(*SpaceDelimitedArray).UnmarshalText", P: []string{"s", "text"}, Kind: "call", Pat: `strings.Split(conv(string, $text), " ")`, Min: 1, Max: 1},
+		{ID: "E8.locales.split-text", Fn: "oidc.(*Locales).UnmarshalText", P: []string{"l", "text"}, Kind: "call", Pat: `oidc.ParseLocales(strings.Split(conv(string, $text), " "))`, Min: 1, Max: 1},
+		{ID: "E8.locales.split-json", Fn: "oidc.(*Locales).UnmarshalJSON", P: []string{"l", "data"}, Kind: "call", Pat: `oidc.ParseLocales(strings.Split($v, " "))`, Min: 1, Max: 1,
+			Req: []string{"is($dst, string)"}},
+		{ID: "E8.space-delimited.split", Fn: "oidc.(*SpaceDelimitedArray).UnmarshalJSON", P: []string{"s", "data"}, Kind: "ret ok", Max: 1,
+			Why: "a space-delimited string decodes to its space-separated parts",
+			Req: []string{"ok(json.Unmarshal($data, &$str))", `called(strings.Split($str, " "))`}},
 		{ID: "E8.aes.encrypt.encoding", Fn: "crypto.EncryptAES", P: []string{"data", "key"}, Kind: "ret ok", Pat: "ret(base64.RawURLEncoding.EncodeToString($enc), nil)", Max: 1,
 			Req: []string{"def($enc, crypto.EncryptBytesAES(conv(_, $data), $key), 0)", "ok(crypto.EncryptBytesAES(conv(_, $data), $key))"}},
 		// sealing is total: decryption / encryption fail only for the stated reasons (undecodable text, bad key, short text,
